@@ -5,6 +5,7 @@ use std::io::{BufRead, Write};
 use std::panic::{catch_unwind, AssertUnwindSafe};
 
 mod sym;
+mod sm2;
 
 pub fn unhex(s: &str) -> Vec<u8> {
     if s == "-" {
@@ -51,6 +52,9 @@ fn dispatch(t: &[&str]) -> Option<Out> {
     if let Some(o) = sym::dispatch(t) {
         return Some(o);
     }
+    if let Some(o) = sm2::dispatch(t) {
+        return Some(o);
+    }
     None
 }
 
@@ -60,6 +64,7 @@ fn main() {
     match args.get(1).map(|s| s.as_str()) {
         Some("dump") => {
             sym::dump();
+            sm2::dump();
         }
         Some("run") => {
             let stdin = std::io::stdin();
